@@ -5,11 +5,11 @@ CHECK = {'level': 'exploration',
          'distinct_nontrivial = distinct canonical token strings + distinct generated parser inputs; order laws over all pairs/triples of canonical tokens; '
          'emitted tokens of real changes responses (feed part)',
  'parts': [{'name': 'tokens', 'pkg': 'db', 'run': '^TestVerif_C20_Tokens$', 'timeout_q': 300, 'timeout_t': 1800},
-           {'name': 'parser', 'pkg': 'db', 'run': '^TestVerif_C20_Parser$', 'timeout_q': 300, 'timeout_t': 1800}],
+           {'name': 'parser', 'pkg': 'db', 'run': '^TestVerif_C20_Parser$', 'timeout_q': 300, 'timeout_t': 1800},
+           {'name': 'rest', 'pkg': 'rest', 'run': '^TestVerif_C20_Rest$', 'timeout_q': 300, 'timeout_t': 1800}],
  'min_evals': 1000,
  'assumptions': ['pure functions of db/sequence_id.go driven in-package',
-                 'backing store is the in-memory rosmar bucket (walrus successor) shipped with the repository, Community Edition build; Couchbase Server only '
-                 'behaviour is not exercised']}
+                 ]}
 
 META = {'technique': 'runtime monitoring: exhaustive small-scope execution of the real token functions against an independent canonical-form model; order-law monitor '
               'over all pairs/triples; generated-input parser oracle',
